@@ -141,7 +141,8 @@ class Ctx:
             raise CaseTimeout(reason)
 
         old = signal.signal(signal.SIGALRM, handler)
-        signal.setitimer(signal.ITIMER_REAL, seconds)
+        # re-fires every 0.5 s: a first exception swallowed in a destructor/callback must not disarm the watchdog
+        signal.setitimer(signal.ITIMER_REAL, seconds, 0.5)
         try:
             yield
         except CaseTimeout:
